@@ -1352,6 +1352,24 @@ pub fn configs(prop: SProp, tier: Tier) -> Vec<SCfg> {
                     out.push(base(reqs, None, rb, Flavour::Coupled, 1, alpha));
                 }
             }
+            // a request is in flight for more than a day when the next one arrives: its timer is
+            // still there afterwards (seeded change C08g renewed the timer queue of a *busy* old
+            // connection and lost the timers of the requests in flight)
+            for limit in [None, Some(2)] {
+                let day = 86_400_000i64;
+                let r0 = ReqCfg { deadline_ms: 26 * day / 24, ..ReqCfg::simple(0, false) };
+                let r1 = ReqCfg { deadline_ms: 25 * day / 24 + 10_000, at_ms: Some(25 * day / 24), ..ReqCfg::simple(1, true) };
+                out.push(base(vec![r0, r1], limit, 1, Flavour::Always, 1, alpha));
+            }
+            // the response buffer (one slot) and the sink (one slot, not drained) are both full of
+            // finished responses while a third request's deadline passes: it is aborted all the
+            // same (seeded change C06g stopped reading - and with it expiring - while the
+            // response buffer was full)
+            for (d2, f2) in [(50i64, false), (1, false), (50, true)] {
+                let mk = |id: u64, d: i64, fin: bool| ReqCfg { deadline_ms: d, ..ReqCfg::simple(id, fin) };
+                let reqs = vec![mk(0, 10_000, true), mk(1, 10_000, true), mk(2, d2, f2)];
+                out.push(base(reqs, None, 1, Flavour::Coupled, 1, alpha));
+            }
             let ds: &[i64] = &[-1000, 0, 1, 50, 1000, 700 * 86_400_000];
             for limit in [None, Some(1), Some(2)] {
                 for (fl, cap) in sinks {
@@ -1525,6 +1543,7 @@ pub fn configs(prop: SProp, tier: Tier) -> Vec<SCfg> {
                                             finish: pol[i % 3],
                                             hk: kinds[i % 3],
                                             cancel: false,
+                                            at_ms: None,
                                         });
                                     }
                                     if !thorough {
